@@ -80,6 +80,12 @@ FLOORS = [("linux-gnu", "x86_64", "GLIBC_2.2.5"), ("linux-gnu", "i686", "GLIBC_2
           ("linux-gnu", "or1k", "GLIBC_2.35"), ("linux-gnu", "tilegx", "GLIBC_2.12"), ("linux-gnu", "loongarch64", "GLIBC_2.36"),
           ("gnu", "i686", "GLIBC_2.2.6"), ("gnu", "x86_64", "GLIBC_2.38"), ("kfreebsd-gnu", "i686", "GLIBC_2.3"),
           ("linux-musl", "x86_64", "XCRYPT_2.0"), ("freebsd13.0", "x86_64", "XCRYPT_2.0"), ("darwin21", "aarch64", "XCRYPT_2.0")]
+# multilib builds on an x86-64 host: the ABI is chosen by CFLAGS (as in ./configure CFLAGS=-m32), and the three
+# x86_64 rows of libcrypt.minver are told apart by a preprocessor test that must see those flags.
+# (-D_LIBC_LIMITS_H_: this image has no 32-bit libc headers; gcc's own <limits.h> suffices for the test.)
+FLOORS_CFLAGS = [("linux-gnu", "x86_64", "-m32 -D_LIBC_LIMITS_H_", "GLIBC_2.0"),
+                 ("linux-gnu", "x86_64", "-mx32 -D_LIBC_LIMITS_H_", "GLIBC_2.16"),
+                 ("linux-gnu", "x86_64", "-O2 -g", "GLIBC_2.2.5")]
 GLIBC_COMPAT = ["crypt", "crypt_r", "encrypt", "encrypt_r", "setkey", "setkey_r", "fcrypt"]
 
 
@@ -87,16 +93,24 @@ def floors(acc):
     scr = os.path.join(build.REPO, "build-aux", "scripts")
     env = dict(os.environ, LC_ALL="C")
     maps = {}
-    for host_os, cpu, want in FLOORS:
+    for host_os, cpu, want, cflags in [(a, b, c, None) for a, b, c in FLOORS] + [(a, b, d, c) for a, b, c, d in FLOORS_CFLAGS]:
+        env2 = dict(env)
+        env2.pop("CPPFLAGS", None)
+        if cflags is not None:
+            env2["CFLAGS"] = cflags
+            cpu_label = "%s[CFLAGS=%s]" % (cpu, cflags.split()[0])
+        else:
+            env2.pop("CFLAGS", None)
+            cpu_label = cpu
         p = subprocess.run(["perl", "-I", scr, os.path.join(scr, "compute-symver-floor"),
                             os.path.join(build.REPO, "lib", "libcrypt.minver"), host_os, cpu],
-                           stdout=subprocess.PIPE, stderr=subprocess.PIPE, text=True, env=env)
+                           stdout=subprocess.PIPE, stderr=subprocess.PIPE, text=True, env=env2)
         got = p.stdout.strip().splitlines()[-1] if p.stdout.strip() else ""
         acc.count("evaluations")
         acc.count("floors_checked")
-        acc.cls(("floor", cpu, host_os))
+        acc.cls(("floor", cpu_label, host_os))
         if p.returncode != 0 or got != want:
-            acc.violation("%s/symver-floor/%s-%s" % (PID, cpu, host_os),
+            acc.violation("%s/symver-floor/%s-%s" % (PID, cpu_label, host_os),
                           "configure for %s-%s would export the glibc compatibility symbols from %r; binaries of that "
                           "platform bind %s (rc=%s %s)" % (cpu, host_os, got, want, p.returncode, p.stderr[-200:]), None)
             continue
@@ -205,6 +219,8 @@ def client_workload(seed, tier):
     for i in range(30 if tier == "quick" else 1000):
         lines.append("h %016x %016x %s %s" % (rng.getrandbits(64), rng.getrandbits(64), pool.hx(b"phrase%d" % i),
                                             pool.hx(hs[i % len(hs)])))
+    for i, sset in enumerate((b"ab", b"$1$saltsalt", b"$6$rounds=1000$xy")):
+        lines.append("t %s %s" % (pool.hx(b"thread phrase %d" % i), pool.hx(sset)))
     lines.append("p")
     return lines
 
